@@ -331,6 +331,14 @@ class SQLExecutor(object):
                     if isinstance(statement, tuple):
                         statement, params = statement
                         assert isinstance(params, tuple)
+
+                        if not params:
+                            # There's nothing to substitute, so this must not
+                            # be treated as a format string. Otherwise, any
+                            # literal "%" in the statement would be
+                            # interpreted when executing the statement (but
+                            # not when capturing it).
+                            params = None
                     else:
                         params = None
 
